@@ -238,15 +238,18 @@ fn from_range_bounds<T: Dom>() {
     let excluded_start = matches!(lo, Bound::Excluded(_));
     let res = Interval::from_range_bounds((lo, hi));
     let denotes_interval = lo_ok && hi_ok && ms <= me;
-    // statement-level obligation: accepted iff the bounds denote a non-empty finite interval, and then exactly it
-    assert!(res.is_ok() == denotes_interval, "C16/interval.from_range_bounds/ok_iff_nonempty_finite");
+    kani::cover!(res.is_ok(), "reach:ok");
+    kani::cover!(res.is_err() && lo_ok && hi_ok, "reach:empty_rejected");
+    kani::cover!(matches!(hi, Bound::Excluded(_)) && yv == T::TMIN, "reach:excluded_end_at_type_min");
+    kani::cover!(excluded_start && res.is_ok(), "reach:excluded_start_accepted");
+    kani::cover!(!lo_ok, "reach:unbounded_start");
     if let Ok(i) = res {
-        assert!(i.start.val() == ms && i.end.val() == me, "C16/interval.from_range_bounds/eq_denoted_interval");
         assert!(i.is_valid(), "C16/interval.from_range_bounds/result_valid");
     } else {
         assert!(res == Err(IntervalSetError::InvalidInterval), "C16/interval.from_range_bounds/error_kind");
     }
-    // residual obligations (AUTHORING "Findings"): everything except an *excluded start bound*
+    // residual obligations (AUTHORING "Findings"): every bound combination except an *excluded start bound*,
+    // where the implementation steps DOWN instead of up (interval.rs:21)
     if !excluded_start {
         assert!(res.is_ok() == denotes_interval, "C16/interval.from_range_bounds/ok_iff_nonempty_finite#outside-known");
         if let Ok(i) = res {
@@ -256,11 +259,12 @@ fn from_range_bounds<T: Dom>() {
             );
         }
     }
-    kani::cover!(res.is_ok(), "reach:ok");
-    kani::cover!(res.is_err() && lo_ok && hi_ok, "reach:empty_rejected");
-    kani::cover!(matches!(hi, Bound::Excluded(_)) && yv == T::TMIN, "reach:excluded_end_at_type_min");
-    kani::cover!(excluded_start && res.is_ok(), "reach:excluded_start_accepted");
-    kani::cover!(!lo_ok, "reach:unbounded_start");
+    // statement-level obligations: accepted iff the bounds denote a non-empty finite interval, and then exactly it
+    // (kept last: Kani assumes an assertion after checking it, which would mask the checks above)
+    assert!(res.is_ok() == denotes_interval, "C16/interval.from_range_bounds/ok_iff_nonempty_finite");
+    if let Ok(i) = res {
+        assert!(i.start.val() == ms && i.end.val() == me, "C16/interval.from_range_bounds/eq_denoted_interval");
+    }
 }
 
 //@ harness props=C16 tier=quick level=full timeout=120
